@@ -142,11 +142,26 @@ func RunScanLogic(fsys FileSystem, pkgLoader PackageLoader, target string, opts 
 	}
 
 	// Deterministic Sort
-	sort.Slice(allAlerts, func(i, j int) bool {
-		if allAlerts[i].MatchedFunction != allAlerts[j].MatchedFunction {
-			return allAlerts[i].MatchedFunction < allAlerts[j].MatchedFunction
+	// The comparator must be total on the content of the alerts: workers append in
+	// completion order, and two different alerts can share a function short name and a
+	// signature name (same name in two packages, two signatures indexed under one name).
+	sort.SliceStable(allAlerts, func(i, j int) bool {
+		a, b := allAlerts[i], allAlerts[j]
+		if a.MatchedFunction != b.MatchedFunction {
+			return a.MatchedFunction < b.MatchedFunction
 		}
-		return allAlerts[i].SignatureName < allAlerts[j].SignatureName
+		if a.SignatureName != b.SignatureName {
+			return a.SignatureName < b.SignatureName
+		}
+		if a.SignatureID != b.SignatureID {
+			return a.SignatureID < b.SignatureID
+		}
+		if a.Confidence != b.Confidence {
+			return a.Confidence > b.Confidence
+		}
+		ja, _ := json.Marshal(a)
+		jb, _ := json.Marshal(b)
+		return string(ja) < string(jb)
 	})
 
 	summary := models.ScanSummary{TotalAlerts: len(allAlerts)}
